@@ -4,6 +4,7 @@ from __future__ import annotations
 import ast
 
 from .. import memo
+from .. import shape as _sh
 from ..flow import call_name, dotted, norm, writes_in
 from ..index import AnalysisError, walk_local
 from ..lib import (cfg_of, defs_of, edge_leads_only_to_raise, is_super_call, live, nodes_calling,
@@ -52,6 +53,107 @@ def own_units_rule(ck, ix):
         direct = any("unit_names" in norm(nd) for (_, _, nd) in ws)
         ck.check(bool(loops) or direct, "G-PROV", f"{q}|every-given-name", f.loc(), "all given names are applied", f"{q} does not apply every name of unit_names")
 
+def _with_value_helpers_inlined(ix, fi):
+    """A fresh FunctionDef for `fi` (parents set) in which value-less private helpers and tail calls are inlined
+    (shape.inline_helpers) and, in addition, an assignment `<target> = _helper(args)` whose callee is a private helper of
+    the same class/module ending in its only `return <value>` is replaced by the helper's body followed by
+    `<target> = <value>`: the shape the caller had before an "extract function" refactoring.  Parameters are
+    substituted by the arguments (bound by an assignment when the argument is not a plain name / attribute / constant);
+    helper locals that also occur in the caller are renamed."""
+    fn = _sh.inline_helpers(ix, fi)
+    caller_names = {x.id for x in ast.walk(fn) if isinstance(x, ast.Name)}
+
+    def expansion(st):
+        if not (isinstance(st, ast.Assign) and isinstance(st.value, ast.Call)):
+            return None
+        call = st.value
+        g, is_method = _sh._callee(ix, fi, call)
+        if g is None or not g.name.startswith("_") or g.name.startswith("__") or not isinstance(g.node, ast.FunctionDef) or g.node.decorator_list:
+            return None
+        a = g.node.args
+        if a.vararg or a.kwarg or a.kwonlyargs or a.posonlyargs or any(isinstance(x, ast.Starred) for x in call.args) or any(k.arg is None for k in call.keywords):
+            return None
+        body = [x for x in ast.parse(ast.unparse(g.node)).body[0].body if not (isinstance(x, ast.Expr) and isinstance(x.value, ast.Constant))]
+        rets = [r for x in body for r in ast.walk(x) if isinstance(r, ast.Return)]
+        if not body or len(rets) != 1 or body[-1] is not rets[0] or rets[0].value is None or any(isinstance(x, (ast.Yield, ast.YieldFrom, ast.Await, ast.Global, ast.Nonlocal)) for st_ in body for x in ast.walk(st_)):
+            return None
+        ps = [x.arg for x in a.args]
+        if is_method and ps and ps[0] in ("self", "cls"):
+            ps = ps[1:]
+        if len(call.args) > len(ps):
+            return None
+        sub = dict(zip(ps, call.args))
+        sub.update({k.arg: k.value for k in call.keywords if k.arg in ps})
+        for p_, d_ in zip(ps[len(ps) - len(a.defaults):], a.defaults):
+            sub.setdefault(p_, d_)
+        if set(sub) != set(ps):
+            return None
+        # helper locals that clash with names of the caller get a fresh name
+        stored = {x.id for st_ in body for x in ast.walk(st_) if isinstance(x, ast.Name) and isinstance(x.ctx, (ast.Store, ast.Del))} - set(ps)
+        ren = {}
+        for nm in sorted(stored & caller_names):
+            new = nm + "_h"
+            while new in caller_names or new in stored:
+                new += "_"
+            ren[nm] = new
+        for st_ in body:
+            for x in ast.walk(st_):
+                if isinstance(x, ast.Name) and x.id in ren:
+                    x.id = ren[x.id]
+        pre, mapping = [], {}
+        rebound = {x.id for st_ in body for x in ast.walk(st_) if isinstance(x, ast.Name) and isinstance(x.ctx, (ast.Store, ast.Del))}
+        for p_, arg in sub.items():
+            if isinstance(arg, (ast.Name, ast.Attribute, ast.Constant)) and p_ not in rebound:
+                mapping[p_] = arg
+            else:
+                pre.append(ast.Assign(targets=[ast.Name(id=p_, ctx=ast.Store())], value=arg))
+        out = pre + [_sh._subst(x, mapping) for x in body[:-1]]
+        out.append(ast.Assign(targets=st.targets, value=_sh._subst(body[-1], mapping).value))
+        for x in out:
+            for y in ast.walk(x):
+                if hasattr(y, "lineno") or isinstance(y, (ast.stmt, ast.expr)):
+                    y.lineno, y.col_offset = st.lineno, st.col_offset
+                    y.end_lineno, y.end_col_offset = getattr(st, "end_lineno", st.lineno), getattr(st, "end_col_offset", 0)
+        return out
+
+    for _ in range(2):
+        changed = False
+        for node in list(ast.walk(fn)):
+            for fld in ("body", "orelse", "finalbody"):
+                lst = getattr(node, fld, None)
+                if not (isinstance(lst, list) and lst and isinstance(lst[0], ast.stmt)):
+                    continue
+                new = []
+                for st in lst:
+                    rep = expansion(st)
+                    if rep is None:
+                        new.append(st)
+                    else:
+                        new.extend(rep)
+                        changed = True
+                setattr(node, fld, new)
+        if not changed:
+            break
+    ast.fix_missing_locations(fn)
+    return _sh._set_parents(fn)
+
+
+def _members_of_other_groups(e) -> bool:
+    """`e` collects <g>.members for every <g> in self._groups.values() except the root group (whatever the
+    comprehension variables are called)"""
+    for comp in ast.walk(e):
+        if not (isinstance(comp, (ast.ListComp, ast.SetComp, ast.GeneratorExp)) and len(comp.generators) == 2):
+            continue
+        g0, g1 = comp.generators
+        G = norm(g0.target)
+        if norm(g0.iter) != "self._groups.values()" or norm(g1.iter) != f"{G}.members" or norm(comp.elt) != norm(g1.target):
+            continue
+        filters = [(norm(at), tr) for i in g0.ifs + g1.ifs for at, tr in _sh.conjuncts(i, "t")]
+        if filters and all(f_ in ((f"{G}.name == 'root'", False), (f"'root' == {G}.name", False)) for f_ in filters):
+            return True
+    return False
+
+
 def run(ck, ix, tier):
     ck.rule("G-PROV", "the value reaching a sink derives from the named sources")
     memo.rule_base_units_cache(ck, ix)
@@ -64,8 +166,8 @@ def run(ck, ix, tier):
     defs = defs_of(fi)
     cfg = cfg_of(fi)
     # system None -> default
-    tests = [n for n in cfg.nodes if n.kind == "test" and norm(n.ast) in ("system is None", "not system", "system == None")]
-    dflt = [a for a in walk_local(fi.node) if isinstance(a, ast.Assign) and any(norm(t) == "system" for t in a.targets) and norm(a.value) == "self._default_system_name"]
+    dflt = [a for a in walk_local(fi.node) if isinstance(a, ast.Assign) and any(norm(t) == "system" for t in a.targets) and norm(a.value) == "self._default_system_name"
+            and any((norm(at) in ("system is None", "system == None") and tr) or (norm(at) == "system" and not tr) for at, tr in _sh.facts_at(a, fi.node))]
     ck.check(bool(dflt), "G-PROV", "_get_base_units|none-means-default-system", fi.loc(),
              "system=None means the default system", "a missing `system` argument no longer falls back to self._default_system_name")
     # root units come from get_root_units of the input with the same check_nonmult
@@ -74,21 +176,31 @@ def run(ck, ix, tier):
     for c in roots:
         ck.check(len(c.args) >= 2 and norm(c.args[0]) == "input_units" and norm(c.args[1]) == "check_nonmult", "G-PROV",
                  "_get_base_units|root-units-of-input", fi.loc(c), "root units of the input units", f"`{norm(c)}` is not the root expansion of (input_units, check_nonmult)")
+    # the (factor, units) pair they return, by role
+    pairs = [a for a in walk_local(fi.node) if isinstance(a, ast.Assign) and isinstance(a.targets[0], ast.Tuple) and len(a.targets[0].elts) == 2
+             and all(isinstance(e, ast.Name) for e in a.targets[0].elts) and any(_sh.unalias(a.value, fi.node) is c for c in roots)]
+    ck.floor("G-PROV", len(pairs), 1, "(factor, units) = get_root_units(...) in _get_base_units")
+    root_factor, root_units = [e.id for e in pairs[0].targets[0].elts]
     # base units table of the requested system (not created on demand)
     gs = [c for c in walk_local(fi.node) if isinstance(c, ast.Call) and call_name(c) == "get_system"]
     ck.floor("G-PROV", len(gs), 1, "get_system call in _get_base_units")
     for c in gs:
-        ck.check(norm(c.args[0]) == "system" and len(c.args) > 1 and norm(c.args[1]) == "False", "G-PROV", "_get_base_units|system-looked-up-not-created", fi.loc(c),
+        create = c.args[1] if len(c.args) > 1 else next((k.value for k in c.keywords if k.arg == "create_if_needed"), None)
+        ck.check(bool(c.args) and norm(c.args[0]) == "system" and create is not None and norm(create) == "False", "G-PROV", "_get_base_units|system-looked-up-not-created", fi.loc(c),
                  "the requested system is looked up (unknown names raise)", f"`{norm(c)}` does not look up the requested system without creating it")
-    # substitution loop: destination *= new_unit ** value   /  destination *= {unit: value}
-    loops = [f for f in walk_local(fi.node) if isinstance(f, ast.For) and "units.items()" in norm(f.iter)]
+    # substitution loop: the loop over the items of the root units in which the destination is accumulated:
+    #   destination *= new_unit ** value   /  destination *= {unit: value}
+    loops = [f for f in walk_local(fi.node) if isinstance(f, ast.For) and isinstance(f.iter, ast.Call) and call_name(f.iter) == "items" and isinstance(f.iter.func, ast.Attribute)
+             and norm(f.iter.func.value) == root_units and any(isinstance(a, ast.AugAssign) for a in ast.walk(f))]
     ck.floor("G-PROV", len(loops), 1, "substitution loop over the root units")
+    accumulators = set()
     for f in loops:
         if not (isinstance(f.target, ast.Tuple) and len(f.target.elts) == 2):
             raise AnalysisError("_get_base_units: unexpected loop target")
         u, v = norm(f.target.elts[0]), norm(f.target.elts[1])
         augs = [a for a in ast.walk(f) if isinstance(a, ast.AugAssign)]
         ck.floor("G-PROV", len(augs), 2, "accumulations in the substitution loop")
+        accumulators |= {norm(a.target) for a in augs}
         for a in augs:
             ck.check(isinstance(a.op, ast.Mult), "G-PROV", "_get_base_units|accumulate-by-product", fi.loc(a), "units accumulated by product", f"`{norm(a)}` does not multiply")
             val = defs.inline(a.value)
@@ -104,19 +216,19 @@ def run(ck, ix, tier):
                 ck.check(False, "G-PROV", "_get_base_units|accumulate-shape", fi.loc(a), "", f"unrecognised accumulation `{norm(a)}`")
         # the replacement (`** exponent` accumulation) happens exactly for units declared in the system's base_units table,
         # the keep-as-is accumulation for the others - whichever way the test is written
-        from .. import shape as _sh14
-        declared = lambda a_: isinstance(a_, ast.Compare) and isinstance(a_.ops[0], ast.In) and norm(a_.left) == u and "base_units" in _sh14.rnorm(a_.comparators[0], fi.node, 2)
+        declared = lambda a_: isinstance(a_, ast.Compare) and isinstance(a_.ops[0], ast.In) and norm(a_.left) == u and "base_units" in _sh.rnorm(a_.comparators[0], fi.node, 2)
         for a in augs:
             val = defs.inline(a.value)
             repl = isinstance(val, ast.BinOp) and isinstance(val.op, ast.Pow)
-            ck.check(_sh14.holds_at(a, fi.node, declared, repl), "G-PROV", "_get_base_units|replace-only-declared-units", fi.loc(a), "only units declared by the system are replaced",
+            ck.check(_sh.holds_at(a, fi.node, declared, repl), "G-PROV", "_get_base_units|replace-only-declared-units", fi.loc(a), "only units declared by the system are replaced",
                      f"`{norm(a)}` is not executed on the {'declared' if repl else 'undeclared'} side of the membership test in the system's base_units")
+    # the factor is converted from the root units to the accumulated destination units
     convs = [c for c in walk_local(fi.node) if isinstance(c, ast.Call) and call_name(c) in ("convert", "_convert")]
     ck.floor("G-PROV", len(convs), 1, "factor conversion in _get_base_units")
     for c in convs:
         args = [norm(a) for a in c.args]
-        ck.check(args[:3] == ["factor", "units", "destination_units"], "G-PROV", "_get_base_units|factor-converted-root-to-base", fi.loc(c),
-                 "factor converted from root units to the substituted units", f"`{norm(c)}` does not convert the factor from `units` to `destination_units`")
+        ck.check(len(args) >= 3 and args[0] == root_factor and args[1] == root_units and args[2] in accumulators, "G-PROV", "_get_base_units|factor-converted-root-to-base", fi.loc(c),
+                 "factor converted from root units to the substituted units", f"`{norm(c)}` does not convert the factor from `{root_units}` to `{'/'.join(sorted(accumulators))}`")
 
     # public get_base_units passes its arguments through
     fi = ix.func(SR, "GenericSystemRegistry.get_base_units")
@@ -153,10 +265,10 @@ def run(ck, ix, tier):
         else:
             ck.check(any(is_super_call(x, "_get_compatible_units") for x in ast.walk(v)), "G-PROV", "group._get_compatible_units|no-group-plain-listing", fi.loc(cfg.nodes[r].ast),
                      "no group: plain listing", f"`{s}` is not the plain listing")
-    unk = [n.id for n in cfg.nodes if n.kind == "test" and norm(n.ast) in ("group in self._groups", "group not in self._groups")]
+    # edges on which `group` is known NOT to be a registered group (however the membership test is spelled): only raise
+    unk = sorted(set(_sh.guard_edges(cfg, lambda a_: isinstance(a_, ast.Compare) and isinstance(a_.ops[0], ast.In) and norm(a_.left) == "group" and norm(a_.comparators[0]) == "self._groups", want=False)))
     ck.check(bool(unk), "G-DOM", "group._get_compatible_units|unknown-group-test", fi.loc(), "unknown group names are tested", "unknown group names are no longer detected")
-    for t in unk:
-        lab = "f" if norm(cfg.nodes[t].ast) == "group in self._groups" else "t"
+    for t, lab in unk:
         p = edge_leads_only_to_raise(cfg, t, lab)
         ck.check(p is None, "G-DOM", "group._get_compatible_units|unknown-group-raises", fi.loc(cfg.nodes[t].ast), "unknown group raises", "an unknown group name yields a listing", witness(cfg, p))
     fi = ix.func(SR, "GenericSystemRegistry._get_compatible_units")
@@ -185,7 +297,7 @@ def run(ck, ix, tier):
         a = c.args[0].value if c.args and isinstance(c.args[0], ast.Starred) else (c.args[0] if c.args else None)
         v = defs.inline(a) if a is not None else None
         ok = isinstance(v, ast.BinOp) and isinstance(v.op, ast.Sub) and "get_group('root'" in norm(v.left) and ".members" in norm(v.left) \
-            and "group.name != 'root'" in norm(v.right) and "group.members" in norm(v.right)
+            and _members_of_other_groups(v.right)
         ck.check(ok, "G-PROV", "group._after_init|default-group-gets-orphans", fi.loc(c),
                  "default group receives root members minus the members of every other group",
                  f"`{norm(v) if v is not None else norm(c)}` is not (root members − members of all non-root groups)")
@@ -202,14 +314,23 @@ def run(ck, ix, tier):
     # ------------------------------------------------------------ rule inversion in System.from_definition
     fi = ix.func(SO, "System.from_definition")
     ck.analysed(fi)
-    defs = defs_of(fi)
+    fn = memo.looked_through(ix, fi, transform=_with_value_helpers_inlined).node      # an extracted `x = _helper(...)` computation is looked through
     # Solving  new = old**p * prod(other**e)  for old gives  old = new**(1/p) * prod(other**(-e/p)).  Every exponent that
     # the function computes is one of: 1/p (the new unit), -e/p (the other root units, old excluded), 1/v (bare rule
-    # `new` whose root expansion is old**v) - however the dictionary is assembled (comprehension, loop, literal).
-    from .. import shape as _shs
-    stores = [a_ for a_ in walk_local(fi.node) if isinstance(a_, ast.Assign) and any(isinstance(t, ast.Subscript) and norm(t.value) == "base_unit_names" for t in a_.targets)]
+    # `new` whose root expansion is old**v) - however the dictionary is assembled (comprehension, loop, literal) and
+    # whatever the locals are called.  Roles: (NEW, OLD) = the variables of the loop over the declared replacements; the
+    # table = what is handed to `<system>.base_units.update(**table)`.
+    rep_loops = [l for l in ast.walk(fn) if isinstance(l, ast.For) and isinstance(l.target, ast.Tuple) and len(l.target.elts) == 2 and all(isinstance(e, ast.Name) for e in l.target.elts)
+                 and _sh.rnorm(l.iter, fn) == "system_definition.unit_replacements"]
+    ck.floor("G-PROV", len(rep_loops), 1, "loop over system_definition.unit_replacements")
+    NEW, OLD = [e.id for e in rep_loops[0].target.elts]
+    tables = {norm(k.value) for c in ast.walk(fn) if isinstance(c, ast.Call) and call_name(c) == "update" and isinstance(c.func, ast.Attribute) and norm(c.func.value).endswith(".base_units")
+              for k in c.keywords if k.arg is None}
+    ck.floor("G-PROV", len(tables), 1, "table handed to base_units.update in System.from_definition")
+    expansion_of_new = f"get_root_func({NEW})"
+    stores = [a_ for a_ in ast.walk(fn) if isinstance(a_, ast.Assign) and any(isinstance(t, ast.Subscript) and norm(t.value) in tables for t in a_.targets)]
     ck.floor("G-PROV", len(stores), 2, "base_unit_names stores in System.from_definition")
-    divs = [b_ for b_ in ast.walk(fi.node) if isinstance(b_, ast.BinOp) and isinstance(b_.op, ast.Div)]
+    divs = [b_ for b_ in ast.walk(rep_loops[0]) if isinstance(b_, ast.BinOp) and isinstance(b_.op, ast.Div)]
     ck.floor("G-PROV", len(divs), 1, "exponent divisions in System.from_definition")
     for a_ in stores:
         if isinstance(a_.value, ast.Dict):
@@ -218,25 +339,25 @@ def run(ck, ix, tier):
                          f"`{norm(a_)}`: for a rule `new` whose root expansion is old**value the replacement must be new**(1/value), not new**({norm(v_)})")
 
     def exponent_of_old(e):
-        """e is (a name for) <expansion of new>[old_unit]"""
-        x = _shs.unalias(e, fi.node)
-        return isinstance(x, ast.Subscript) and norm(x.slice) == "old_unit" and "get_root_func(new_unit)" in _shs.rnorm(x.value, fi.node, 3)
+        """e is (a name for) <expansion of new>[OLD]"""
+        x = _sh.unalias(e, fn)
+        return isinstance(x, ast.Subscript) and norm(x.slice) == OLD and expansion_of_new in _sh.rnorm(x.value, fn, 3)
 
     def popped_exponent(e):
         """e is the exponent of the single (unit, exponent) item of the root expansion of new (bare rule)"""
-        x = _shs.unalias(e, fi.node)
-        return isinstance(x, ast.Subscript) and "popitem()" in norm(x.value) and norm(x.slice) == "1" and "get_root_func(new_unit)" in _shs.rnorm(x.value, fi.node, 4)
+        x = _sh.unalias(e, fn)
+        return isinstance(x, ast.Subscript) and "popitem()" in norm(x.value) and norm(x.slice) == "1" and expansion_of_new in _sh.rnorm(x.value, fn, 4)
 
     def other_exponent(e):
-        """e is the exponent variable of a loop/comprehension over <expansion of new>.items() with old_unit excluded"""
+        """e is the exponent variable of a loop/comprehension over <expansion of new>.items() with OLD excluded"""
         if not isinstance(e, ast.Name):
             return False
-        for x in ast.walk(fi.node):
+        for x in ast.walk(fn):
             tgt, it = (x.target, x.iter) if isinstance(x, (ast.For, ast.comprehension)) else (None, None)
-            if isinstance(tgt, ast.Tuple) and len(tgt.elts) == 2 and norm(tgt.elts[1]) == e.id and norm(it).endswith(".items()") and "get_root_func(new_unit)" in _shs.rnorm(it, fi.node, 3):
+            if isinstance(tgt, ast.Tuple) and len(tgt.elts) == 2 and norm(tgt.elts[1]) == e.id and norm(it).endswith(".items()") and expansion_of_new in _sh.rnorm(it, fn, 3):
                 return True
         return False
-    excluded = lambda a_: isinstance(a_, ast.Compare) and isinstance(a_.ops[0], ast.Eq) and "old_unit" in (norm(a_.left), norm(a_.comparators[0]))
+    excluded = lambda a_: isinstance(a_, ast.Compare) and isinstance(a_.ops[0], ast.Eq) and OLD in (norm(a_.left), norm(a_.comparators[0]))
     kinds = []
     for b_ in divs:
         num, den = b_.left, b_.right
@@ -248,14 +369,16 @@ def run(ck, ix, tier):
             ck.ok("G-PROV", "System.from_definition|bare-rule-inverted", fi.loc(b_), "old = new ** (1/value)")
         elif isinstance(num, ast.UnaryOp) and isinstance(num.op, ast.USub) and other_exponent(num.operand) and exponent_of_old(den):
             kinds.append("other")
-            ck.check(_shs.holds_at(b_, fi.node, excluded, False), "G-PROV", "System.from_definition|old-unit-excluded", fi.loc(b_), "the replaced unit is excluded", "the replaced unit is not excluded from its own replacement")
+            ck.check(_sh.holds_at(b_, fn, excluded, False), "G-PROV", "System.from_definition|old-unit-excluded", fi.loc(b_), "the replaced unit is excluded", "the replaced unit is not excluded from its own replacement")
             ck.ok("G-PROV", "System.from_definition|other-units-exponent-inverted", fi.loc(b_), "other root units get exponent -e/p")
         else:
-            which = "bare-rule-inverted" if "popitem" in _shs.rnorm(den, fi.node, 4) or "popitem" in _shs.rnorm(num, fi.node, 4) else ("new-unit-exponent-inverted" if isinstance(num, ast.Constant) or exponent_of_old(num) else "other-units-exponent-inverted")
+            which = "bare-rule-inverted" if "popitem" in _sh.rnorm(den, fn, 4) or "popitem" in _sh.rnorm(num, fn, 4) else ("new-unit-exponent-inverted" if isinstance(num, ast.Constant) or exponent_of_old(num) else "other-units-exponent-inverted")
             ck.fail("G-PROV", f"System.from_definition|{which}", fi.loc(b_), f"`{norm(b_)}` is none of 1/p (new unit), -e/p (other root units), 1/v (bare rule), with p the exponent of the replaced unit in the expansion of the new unit: "
                     "solving new = old**p * prod(other**e) for old gives new**(1/p) * prod(other**(-e/p))")
     ck.check({"new", "bare", "other"} <= set(kinds), "G-PROV", "System.from_definition|all-three-exponent-forms-present", fi.loc(), "1/p, -e/p and 1/v are all computed", f"only {sorted(set(kinds))} of the exponent forms (new, other, bare) are computed")
-    tests = [t for t in walk_local(fi.node) if isinstance(t, ast.If) and "get_root_func(old_unit)" in norm(t.test)]
+    # a replaced unit that is not its own root expansion is rejected: where the comparison of OLD with (the text of)
+    # get_root_func(OLD) fails, only a raise follows
+    tests = [t for t in ast.walk(fn) if isinstance(t, ast.If) and f"get_root_func({OLD})" in norm(t.test)]
     ck.check(bool(tests) and all(any(isinstance(r, ast.Raise) for r in ast.walk(t)) for t in tests), "G-DOM", "System.from_definition|old-unit-must-be-root", fi.loc(),
              "a replaced unit that is not a root unit is rejected", "a non-root `old` unit is no longer rejected")
 
@@ -269,7 +392,12 @@ def run(ck, ix, tier):
     ck.check(bool(scoped) and bool(plain), "G-PROV", "System.__getattr__|scoped-then-plain", fi.loc(),
              "looks up <system>_<name> then <name>", "System.__getattr__ no longer tries <system>_<item> before <item>")
     if scoped and plain:
-        ck.check(scoped[0].lineno < plain[0].lineno, "G-PROV", "System.__getattr__|scoped-first", fi.loc(scoped[0]), "system variant tried first", "the plain name is tried before the system variant")
+        # the plain lookup only happens where the result of the system-scoped lookup is known to be None
+        def scoped_result_is_none(at):
+            if not (isinstance(at, ast.Compare) and len(at.ops) == 1 and isinstance(at.ops[0], ast.Is) and norm(at.comparators[0]) == "None"):
+                return False
+            return any(_sh.unalias(at.left, fi.node) is c for c in scoped)
+        ck.check(all(_sh.holds_at(c, fi.node, scoped_result_is_none, True) for c in plain), "G-PROV", "System.__getattr__|scoped-first", fi.loc(scoped[0]), "system variant tried first", "the plain name is tried before the system variant")
     guard = nodes_calling(cfg, "getattr_maybe_raise")
     for c in first:
         ids = cfg.nodes_for_ast(c)
